@@ -219,3 +219,25 @@ fn c07_default_capacity_any_declared_length() {
     }
     std::mem::forget(reader);
 }
+
+/// One literal-layout 5-byte message followed by a complete header-only message,
+/// any 2-step schedule: the first cut is delivered exactly.
+#[kani::proof]
+#[kani::unwind(11)]
+#[kani::stub(std::fmt::format, crate::models::fmt_format_stub)]
+fn c07_first_of_two_messages_any_schedule() {
+    let d: [u8; 4] = kani::any();
+    let data: [u8; 9] = [0x20, d[0], 0, 5, d[1], 0x22, d[2], 0, 4];
+    let src = any_src::<9>(data, 9);
+    let mut reader = DltMessageReader::with_capacity(6, 6, src, false);
+    match reader.next_message_slice() {
+        Ok(s) => {
+            assert!(s.len() == 5, "first cut");
+            let mut i = 0;
+            while i < 5 { assert!(s[i] == data[i]); i += 1; }
+            kani::cover!(true, "delivered");
+        }
+        Err(_) => assert!(false, "first message not delivered"),
+    }
+    std::mem::forget(reader);
+}
